@@ -91,7 +91,16 @@ sv r1 etc/correctness/rng-tests/_common.rs 's = s.replace("None => return i32::m
 sv r2 etc/correctness/test-parse-random/_common.rs 's = s.replace("None => return i32::max_value(),", "None => return i32::min_value(),", 1)' changed SrcFrontRand
 sv r3 etc/correctness/test-parse-unittests/main.rs 's = s.replace("None => return i32::max_value(),", "None => return i32::min_value(),", 1)' changed SrcFrontUnit
 # non-target items may change freely ..
-sv r4 etc/correctness/test-parse-unittests/main.rs 's = s.replace("fn main() {", "#[derive(Clone)]\nstruct Extra { x: u8 }\nimpl Extra { fn len(&self) -> usize { self.x as usize } }\nfn main() {\n    let _e = Extra { x: 1 }.len();", 1)' same SrcFrontUnit
+sv r4 etc/correctness/test-parse-unittests/main.rs 's = s.replace("fn main() {", "#[derive(Clone)]\nstruct Extra { x: u8 }\nimpl Extra { fn size(&self) -> usize { self.x as usize } }\nfn main() {\n    let _e = Extra { x: 1 }.size();", 1)' same SrcFrontUnit
+# .. (stage 12) but an impl function called like a method the targets call is refused, and so is an impl for a type of another crate
+sv r10 etc/correctness/test-parse-unittests/main.rs 's = s.replace("fn main() {", "#[derive(Clone)]\nstruct Extra { x: u8 }\nimpl Extra { fn len(&self) -> usize { self.x as usize } }\nfn main() {\n    let _e = Extra { x: 1 }.len();", 1)' omitted SrcFrontUnit
+sv r11 etc/correctness/test-parse-unittests/main.rs 's = s + "\nimpl Default for Option<u32> { }\n"' omitted SrcFrontUnit
+# ---- stage 12: token texts are compared with single spaces between tokens and literals verbatim:
+# white space BETWEEN tokens of pinned / whitelisted text is free, white space INSIDE a string literal is not
+sv w1 src/num.rs 's = s.replace("    fn from_u64(u: u64) -> f32 {\n        u as _", "    fn from_u64( u : u64 )\n        -> f32 {\n        u   as\n _", 1)' same Src
+sv w2 src/bigint.rs 's = s.replace("#[cfg(all(target_pointer_width = \"64\", not(target_arch = \"sparc\")))]\npub type Limb", "#[cfg( all( target_pointer_width=\"64\" ,not( target_arch = \"sparc\" ) ) )]\npub type Limb", 1)' same SrcBigint
+sv w3 src/bigint.rs 's = s.replace("#[cfg(all(target_pointer_width = \"64\", not(target_arch = \"sparc\")))]\npub type Limb", "#[cfg(all(target_pointer_width = \"64 \", not(target_arch = \"sparc\")))]\npub type Limb", 1)' omitted SrcBigint
+sv w4 src/stackvec.rs 's = s.replace("            let ptr = self.data.as_ptr() as *const bigint::Limb;", "            let ptr=self . data . as_ptr( )as * const bigint :: Limb ;", 1)' same SrcStackVec
 # .. unless they could shadow a name the targets use
 sv r5 etc/correctness/test-parse-unittests/main.rs 's = s + "\n#[allow(non_snake_case)]\nfn Some<T>(x: T) -> Option<T> { None }\n"' omitted SrcFrontUnit
 sv r6 etc/correctness/test-parse-random/_common.rs 's = s.replace("use std::io;", "use std::io;\nuse std::cmp::*;", 1)' omitted SrcFrontRand
